@@ -58,11 +58,94 @@ def loosen(x):
     return x
 
 
+def bound_selection_table(ctx):
+    """get_minimum / get_maximum touch the two keyword values only through comparisons, so their behaviour on the three
+    possible orderings of (inclusive value, exclusive value) is decidable: follow the CFG with both keywords present,
+    decide every comparison of the two payloads by the ordering, and read off the returned (value, exclusive?) tuple.
+        minimum :  inc < exc -> (exc, true)   inc = exc -> (exc, true)   inc > exc -> (inc, false)   (the larger lower bound)
+        maximum :  inc < exc -> (inc, false)  inc = exc -> (exc, true)   inc > exc -> (exc, true)    (the smaller upper bound)
+    plus the single-keyword arms.  Independent of how the function is written (match guards, nested ifs, early returns)."""
+    P = ctx.prog
+    NSCH = "llguidance::json::schema::NumberSchema"
+    TRUTH = {"Lt": lambda c: c < 0, "Le": lambda c: c <= 0, "Gt": lambda c: c > 0, "Ge": lambda c: c >= 0, "Eq": lambda c: c == 0, "Ne": lambda c: c != 0}
+    for fn, inc_f, exc_f, table in (
+            ("get_minimum", "minimum", "exclusive_minimum", {-1: ("exc", True), 0: ("exc", True), 1: ("inc", False)}),
+            ("get_maximum", "maximum", "exclusive_maximum", {-1: ("inc", False), 0: ("exc", True), 1: ("exc", True)})):
+        gb = ctx.body(NSCH + "::" + fn)
+
+        def side(x):
+            t = F.fmt_expr(x)
+            if exc_f in t:
+                return "exc"
+            if inc_f in t:
+                return "inc"
+            return None
+        results = {}
+        for bi, si, st in gb.statements():
+            r = st.get("r", {})
+            if st["s"] == "assign" and st["p"] == [0] and r.get("rv") == "agg" and r.get("kind") == "tuple" and len(r["ops"]) == 2 and "iv" in r["ops"][1]:
+                e0 = gb.expr(r["ops"][0])
+                payload = None
+                if e0[0] == "agg" and isinstance(e0[1], dict) and e0[1].get("variant") == "Some" and e0[2]:
+                    payload = side(e0[2][0])
+                elif e0[0] == "agg" and isinstance(e0[1], dict) and e0[1].get("variant") == "None":
+                    payload = "none"
+                else:
+                    payload = side(e0)      # the Option itself is returned (`(min, false)`)
+                results[bi] = (payload, r["ops"][1]["iv"] == "1")
+        sw = {bi: (e, targets, otherwise) for bi, e, targets, otherwise in gb.switch_edges()}
+
+        def walk(order, present):
+            """results reachable when inc/exc are present as given and compare as `order` (inc ? exc)"""
+            seen, out, dq = set(), set(), [0]
+            while dq:
+                u = dq.pop()
+                if u in seen:
+                    continue
+                seen.add(u)
+                if u in results:
+                    out.add(results[u])
+                nxt = gb.succs(u)
+                if u in sw:
+                    e, targets, otherwise = sw[u]
+                    cur, pol = F.peel_polarity(e)
+                    if cur[0] == "discr":
+                        sd = side(cur[1])
+                        if sd in present:
+                            want = 1 if present[sd] else 0
+                            tg = [tb for v, tb in targets if v == want]
+                            nxt = tg if tg else [otherwise]
+                    elif cur[0] == "bin" and cur[1] in TRUTH and order is not None:
+                        sa_, sb_ = side(cur[2]), side(cur[3])
+                        if {sa_, sb_} == {"inc", "exc"}:
+                            c = order if sa_ == "inc" else -order
+                            val = TRUTH[cur[1]](c) == pol
+                            tt, ft = F.bool_targets(targets, otherwise)
+                            nxt = tt if val else ft
+                dq.extend(nxt)
+            return out
+        for order, name in ((-1, "inc<exc"), (0, "inc=exc"), (1, "inc>exc")):
+            got = walk(order, {"inc": True, "exc": True})
+            ctx.check(got == {table[order]}, "C08-R1", "%s:both-present:%s" % (fn, name),
+                      "returns %s" % (table[order],),
+                      "NumberSchema::%s with both keywords present and %s returns %s, expected %s (%s): the wrong one of the two bounds "
+                      "applies, or a tie admits the excluded value" % (fn, name, sorted(got, key=str), table[order],
+                                                                      "the tighter bound; on a tie the exclusive one"), site=gb.where())
+        for present, want, name in (({"inc": True, "exc": False}, ("inc", False), "only-inclusive"),
+                                    ({"inc": False, "exc": True}, ("exc", True), "only-exclusive"),
+                                    ({"inc": False, "exc": False}, ("none", False), "neither")):
+            got = walk(None, present)
+            # `(min, false)` returns the Option itself: accepted as the inclusive payload / none
+            norm = {("none", f) if (p == "inc" and not present["inc"]) else (p, f) for p, f in got}
+            ctx.check(norm == {want}, "C08-R1", "%s:%s" % (fn, name), "returns %s" % (want,),
+                      "NumberSchema::%s with %s returns %s, expected %s" % (fn, name, sorted(got, key=str), want), site=gb.where())
+
+
 def run(ctx):
     P = ctx.prog
     # ------------------------------------------------------------------ R1 mirrors
-    for a, b, what in ((NS_ + "::get_minimum", NS_ + "::get_maximum", "get_minimum / get_maximum"),
-                       (JS + "opt_max", JS + "opt_min", "opt_max / opt_min")):
+    bound_selection_table(ctx)
+    for a, b, what in ((JS + "opt_max", JS + "opt_min", "opt_max / opt_min"),):
         ba, bb = ctx.body(a), ctx.body(b)
         sa, sb = c16.signature(P, ba), c16.signature(P, bb)
         if what.startswith("opt_"):
@@ -135,39 +218,6 @@ def run(ctx):
                           "Schema::intersect combines %s.%s with `%s`: the intersection of two schemas is no longer the tighter bound"
                           % (adt.rsplit("::", 1)[1], fld, F.fmt_expr(e)), site=isect.where(bi))
     ctx.floor("C08-R1", "bound fields wired in Schema::intersect", len(seen), 8)
-
-    # ------------------------------------------------------------------ R4 inclusive vs exclusive keyword with the same value
-    # minimum == exclusiveMinimum (literally, the Draft-4 boolean form, or via allOf) must exclude the value: in the arm where
-    # both are present, the edge taken *at equality* of the two payloads has to produce the exclusive result (flag true).
-    NSCH = "llguidance::json::schema::NumberSchema"
-    for fn, inc_f, exc_f in (("get_minimum", "minimum", "exclusive_minimum"), ("get_maximum", "maximum", "exclusive_maximum")):
-        gb = ctx.body(NSCH + "::" + fn)
-        results = {}   # block -> flag constant of the returned tuple
-        for bi, si, st in gb.statements():
-            r = st.get("r", {})
-            if st["s"] == "assign" and st["p"] == [0] and r.get("rv") == "agg" and r.get("kind") == "tuple" and len(r["ops"]) == 2 and "iv" in r["ops"][1]:
-                results[bi] = r["ops"][1]["iv"] == "1"
-        n_cmp = 0
-        for bi, e, targets, otherwise in gb.switch_edges():
-            cur, pol = F.peel_polarity(e)
-            if cur[0] != "bin" or cur[1] not in ("Ge", "Gt", "Le", "Lt"):
-                continue
-            sides = [("inc" if inc_f in F.fmt_expr(x) and exc_f not in F.fmt_expr(x) else ("exc" if exc_f in F.fmt_expr(x) else "?")) for x in (cur[2], cur[3])]
-            if sorted(sides) != ["exc", "inc"]:
-                continue
-            n_cmp += 1
-            at_eq = (cur[1] in ("Ge", "Le")) == pol      # truth value of the switch operand when both payloads are equal
-            tt, ft = F.bool_targets(targets, otherwise)
-            heads = tt if at_eq else ft
-            reach = set()
-            for h in heads:
-                reach |= gb.reachable(h)
-            flags = {results[b] for b in results if b in reach}
-            ctx.check(flags == {True}, "C08-R4", fn + ":tie-goes-to-exclusive",
-                      "when %s == %s the exclusive bound is returned" % (inc_f, exc_f),
-                      "NumberSchema::%s returns the inclusive bound when %s and %s carry the same value: the bound value itself is "
-                      "admitted (and x >= v AND x > v with an empty range compiles)" % (fn, inc_f, exc_f), site=gb.where(bi))
-        ctx.floor("C08-R4", "comparison of the inclusive and exclusive payload in " + fn, n_cmp, 1)
 
     # ------------------------------------------------------------------ R2 order of normalisation / arguments
     cnb = NUM + "check_number_bounds"
